@@ -400,13 +400,15 @@ where
         // (max(nodes.key), key) range
         let lt_high_nodes = split_off_lt(&mut page_ref.high_page, key);
 
-        // If existing the high page was split (both sides are non-empty) then
+        // If any part of the existing high page stays behind (it is gte key,
+        // and is left in page_ref.high_page by the split above) then
         // invalidate the page hash.
         //
         // This effectively invalidates the page range of the returned lt_page
-        // as the cached hash covers the high page (which has now been split,
-        // changing the content).
-        if lt_high_nodes.is_some() && page_ref.high_page.is_some() {
+        // as the cached hash covers the whole former high page, part or all
+        // of which is about to be detached from it - irrespective of whether
+        // any lt nodes are put back.
+        if page_ref.high_page.is_some() {
             page_ref.tree_hash = None;
         }
 
